@@ -208,14 +208,28 @@ func (e *Env) Pick(q, t int) int {
 // It returns the result; the caller (a Test function) should not fail the test on
 // violations: the driver turns them into VIOLATION lines and the exit code.
 func (e *Env) Run(scs []*Scenario) *Result {
-	res := &Result{Property: e.Property, Tier: e.Tier, Shard: e.Shard, NShards: e.NShards}
+	res := e.NewResult()
+	e.RunScenarios(res, scs)
+	return e.Finish(res)
+}
+
+// NewResult starts a shard result; use RunScenarios / RunSearch / AddCases, then Finish.
+func (e *Env) NewResult() *Result {
+	return &Result{Property: e.Property, Tier: e.Tier, Shard: e.Shard, NShards: e.NShards, Extra: map[string]any{}}
+}
+
+func (e *Env) RunScenarios(res *Result, scs []*Scenario) {
 	if e.Replay != "" {
 		e.replay(scs, res)
-	} else {
-		for _, sc := range scs {
-			e.explore(sc, res)
-		}
+		return
 	}
+	for _, sc := range scs {
+		e.explore(sc, res)
+	}
+}
+
+// Finish writes the shard result for the driver.
+func (e *Env) Finish(res *Result) *Result {
 	res.WallS = time.Since(e.start).Seconds()
 	if e.Out != "" {
 		data, _ := json.Marshal(res)
@@ -463,7 +477,6 @@ func (e *Env) replay(scs []*Scenario, res *Result) {
 		res.Scenarios = append(res.Scenarios, st)
 		return
 	}
-	res.HarnessErr = append(res.HarnessErr, "replay: unknown scenario "+r.Scenario)
 }
 
 // SortedKeys is a small helper for canonical observations.
